@@ -126,6 +126,25 @@ def fam_chain(D):
     sent = [[], [0], [0, 0], [0] * 7, [1], [0, 1], [0, 0, 1, 0]]     # terminal 1 is declared and used by no rule
     return Fam('chain%d' % D, D + 3, plain(2), rules, 2 * D + 40, 4 * D + 40, [0, 1], 5, sent, note='nullable unit chain of depth %d with feedback: %d rules, about %d analysis passes' % (D, D + 4, 2 * D))
 
+def fam_fan(k, m=4):
+    """an item with many closure children that occurs in two states: S -> p A | q A | q c x ; A -> c B C ; B -> b_1 | ... | b_k ; C -> c_1 | ... | c_m | eps
+    [A -> c . B C, eof] expands to k rules of B under m + 1 lookaheads (m from FIRST(C), one inherited through the nullable C), in the state after
+    'p c' and again, next to another kernel item, in the state after 'q c'. k * (m + 1) is swept across 32, 64, 100, 128, 200, 256."""
+    tb, tc = 4 + m, 4     # t0 p, t1 q, t2 c, t3 x, t4.. the alternatives of C, then the alternatives of B
+    rules = [(0, [T(0), N(1)], None), (0, [T(1), N(1)], None), (0, [T(1), T(2), T(3)], None), (1, [T(2), N(2), N(3)], None)]
+    rules += [(2, [T(tb + i)], None) for i in range(k)] + [(3, [T(tc + j)], None) for j in range(m)] + [(3, [], None)]
+    last = tb + k - 1
+    sent = [[0, 2, tb], [1, 2, tb], [1, 2, last], [0, 2, last, tc], [1, 2, last, tc + m - 1], [1, 2, tb + k // 2, tc], [1, 2, 3], [0, 2, 3], [1, 2, tb, tb], [1, 2, tb, tc, tc]]
+    return Fam('fan%d' % k, 4, plain(4 + m + k), rules, 3 * k + 60, 6 * k + 80, [0, 1, 2, 3, tc, tb, last], 4, sent, note='%d alternatives x %d lookaheads = %d closure children of one item, in two states' % (k, m + 1, k * (m + 1)))
+
+def fam_cell(n):
+    """one table cell with many items: E -> num | E + E | E + E s_1 | ... | E + E s_n with '+' left associative: the state after E + E holds, on '+',
+    the reduction by E -> E + E and (n + 1) * (n + 2) shift items: a resolved S/R cell (reduce) of (n+1)(n+2)+1 items, swept across 32, 64, 128, 256, 512"""
+    terms = [(0, 0), (1, 1)] + [(0, 0)] * n       # t0 num, t1 '+', t2.. suffixes
+    rules = [(0, [T(0)], None), (0, [N(0), T(1), N(0)], None)] + [(0, [N(0), T(1), N(0), T(2 + i)], None) for i in range(n)]
+    sent = [[0], [0, 1, 0], [0, 1, 0, 1, 0], [0, 1, 0, 2], [0, 1, 0, 1, 0, 2], [0, 1, 0, n + 1, 1, 0], [0, 1, 0, 1, 0, 1, 0], [0, 1, 0, 2, 2], [0, 1, 1]]
+    return Fam('cell%d' % n, 1, terms, rules, 4 * n + 60, 3 * (n + 3) * (n + 3) + 60, [0, 1, 2, n + 1], 5, sent, parse_prop='C05', note='a conflict cell of %d items' % ((n + 1) * (n + 2) + 1))
+
 def families(tier='quick'):
     F = [fam_terms(62), fam_terms(63), fam_terms(64), fam_terms(65), fam_terms(130), fam_terms(70, True),
          fam_rules(256), fam_rules(257),
@@ -136,10 +155,10 @@ def families(tier='quick'):
          fam_prec([-32768, 32768, 65535, 65537, 131072], 'prec16bit'),
          fam_recover(63), fam_recover(129), fam_states(6, 64), fam_terms(258, strings=True), fam_long(257), fam_nterms(258),
          fam_rprec([INT_MIN, INT_MIN + 1, -65536, -32768, -2, -1, 1, 6, 7, 8, 32767, 65535, INT_MAX - 1, INT_MAX], 'rprecsentinel'),
-         fam_chain(6), fam_chain(12), fam_chain(40)]
+         fam_chain(6), fam_chain(12), fam_chain(40), fam_fan(8), fam_fan(14), fam_fan(24), fam_fan(30), fam_cell(5), fam_cell(10), fam_cell(15)]
     if tier != 'quick':
         F += [fam_terms(61), fam_terms(126), fam_terms(127), fam_terms(128), fam_terms(129), fam_terms(200), fam_terms(140, True), fam_terms(200, True),
-              fam_rules(254), fam_rules(255), fam_rules(258), fam_rules(300), fam_nterms(130), fam_long(65), fam_recover(65), fam_recover(200), fam_states(7, 64), fam_terms(300, dense=False, strings=True), fam_terms(520, strings=True), fam_long(300), fam_chain(100)]
+              fam_rules(254), fam_rules(255), fam_rules(258), fam_rules(300), fam_nterms(130), fam_long(65), fam_recover(65), fam_recover(200), fam_states(7, 64), fam_terms(300, dense=False, strings=True), fam_terms(520, strings=True), fam_long(300), fam_chain(100), fam_fan(16), fam_fan(45), fam_fan(60), fam_fan(100), fam_cell(7), fam_cell(22), fam_cell(31)]
     return F
 
 def sym_cpp(s):
